@@ -23,6 +23,15 @@ def run(ctx, prop, gens, whats, nbeh, depth=80):
             seen.add(k)
             uniq.append(b)
     behs = uniq
+    if prop == "C04":
+        # directed schedule for the open finding C04/rmw-not-on-current-aba/update (known_findings.json):
+        # actor 1's UpdateWithConflicts reads incarnation 1, actor 2 destroys and re-creates the resource
+        # (version restarts at 1), actor 1's stale Update then succeeds on incarnation 2
+        def call(h, tok=""):
+            return {"h": h, "tok": tok, "fin": "", "owner": "", "exp": "any", "cond": "any"}
+        behs.insert(0, {"prog": [[call("uwc", "t1")], [call("destroy"), call("create")], [call("create")]],
+                        "sched": [{"a": a, "k": "step"} for a in (3, 1, 2, 2, 1, 1, 2, 3)]})
+        ctx.cov["directed_known_finding_scenarios"] = 1
     ctx.cov["behaviours_replayed"] = len(behs)
     ctx.cov["distinct_schedules"] = len(behs)
     ctx.sample({"programs": behs[0]["prog"], "schedule_head": behs[0]["sched"][:10]})
